@@ -29,9 +29,11 @@ func TimeValueWithin(d time.Duration) Value {
 
 		xt, yt := toTime(mx), toTime(my)
 		if xt.Before(yt) {
-			return yt.Sub(xt) <= d, true
+			xt, yt = yt, xt
 		}
-		return xt.Sub(yt) <= d, true
+		// not xt.Sub(yt) <= d: Sub saturates at the largest Duration, so times centuries apart would count as exactly
+		// that far apart
+		return !xt.After(yt.Add(d)), true
 	}
 }
 
@@ -47,9 +49,14 @@ func DurationValueWithin(d time.Duration) Value {
 			return equal, ok
 		}
 		if xd < yd {
-			return yd-xd <= d, true
+			xd, yd = yd, xd
 		}
-		return xd-yd <= d, true
+		diff := xd - yd
+		if diff < 0 {
+			// the difference of a large positive and a large negative duration does not fit a Duration
+			return false, true
+		}
+		return diff <= d, true
 	}
 }
 
